@@ -267,7 +267,11 @@ fn main() {
     for line in input.lines() {
         let w: Vec<&str> = line.split_whitespace().collect();
         let text = String::from_utf8(unhex(w[0])).unwrap();
-        let wiped = whipe_comments(&text);
+        let t1 = text.clone();
+        let wiped = match std::panic::catch_unwind(move || whipe_comments(&t1)) {
+            Ok(w) => w,
+            Err(_) => { println!("- wpanic -"); continue; }
+        };
         let l: usize = w[1].parse().unwrap();
         let r: usize = w[2].parse().unwrap();
         let t2 = text.clone();
@@ -317,6 +321,8 @@ def native_run(exe, scratch, cases):
 def property_on_native(text, loc, wiped, status, output):
     """evaluates the property on the native result; returns a list of problems"""
     problems = []
+    if status == "wpanic":
+        return ["whipe_comments panics on this text"]
     for k, b in enumerate(wiped):
         if b != 32 and (k >= len(text) or text[k] != b):
             problems.append("whipe_comments moves byte %d (%r): the parser's offsets are not offsets of the input" % (k, chr(b)))
@@ -387,7 +393,10 @@ def validate(exe, scratch, L, seed, n):
     # native wiped texts first (locations depend on them)
     nat_w = native_run(exe, scratch, [(t, 0, 1) for t in cases])
     jobs = []
-    for t, (w, _, _) in zip(cases, nat_w):
+    for t, (w, st0, _) in zip(cases, nat_w):
+        if st0 == "wpanic":
+            jobs.append((t, 0, 1))
+            continue
         locs = candidate_locations(w)
         kind, l, r = rng.choice(locs)
         jobs.append((t, l, r))
@@ -399,6 +408,11 @@ def validate(exe, scratch, L, seed, n):
         src = SP.StrA(list(t) + [0] * (L - len(t)), len(t))
         ev0 = len(ctx.events)
         W = SP.as_str(I.deref(I.call_fn(prog.fns["whipe_comments"], T, [src.clone()])))
+        wp = [m for g, k, m in ctx.events[ev0:] if g == T and k == "panic"]
+        if wp or status == "wpanic":
+            if bool(wp) != (status == "wpanic"):
+                bad.append({"text": t.hex(), "what": "whipe_comments panic status", "native": status, "interpreter": wp[:2]})
+            continue
         arr, lo, hi = W.base()
         mine_w = bytes(arr.bytes[lo:hi]) if all(isinstance(x, int) for x in arr.bytes[lo:hi]) else None
         try:
@@ -509,7 +523,10 @@ def main():
     known = [k for k in P.load_known() if k["property"] == "C11"]
     try:
         exe = native_build(scratch)
-        val_bad = validate(exe, scratch, 6, seed, 150 if tier == "quick" else 1500)
+        try:
+            val_bad = validate(exe, scratch, 6, seed, 150 if tier == "quick" else 1500)
+        except Unsupported as ex:
+            inconc.append({"L": 0, "kind": "validation", "reason": "Unsupported: %s" % ex})
         for r in results:
             if r["status"] != "failed":
                 continue
